@@ -24,7 +24,7 @@ package object
 //@   returns str
 //@   pure
 //@   ensures [format] {C12,C02} str == signText(s)
-//@   ensures [one-line] {C02} !contains(s.Name, "\n") && !contains(s.Email, "\n") ==> !contains(str, "\n")
+//@   ensures [one-line] {C02} noByte(s.Name, 10) && noByte(s.Email, 10) ==> noByte(str, 10)
 
 // ---- trees in memory: a forest is a []*Node; a node without children is a file
 
@@ -275,6 +275,12 @@ package object
 // the line into (assumed; validated against the real regexp by TestVFReplay_regexps in /verif/replay/object.go.txt)
 //@ pred afterName(s) := splitTail(s, " <")
 //@ pred afterEmail(s) := splitTail(afterName(s), "> ")
+// ... and the converse for the lines Sign.String produces (assumed as well, validated by the same stand-in): a name
+// without '<', an address the e-mail pattern accepts (emailOK: uninterpreted, such an address has no '>', blank or line
+// break), a positive decimal instant and a zone of a sign and four digits are matched
+//@ ghost emailOK(e string) bool
+//@ axiom [emailOK-chars] forall e string {emailOK(e)} :: emailOK(e) ==> !contains(e, ">") && !contains(e, " ") && !contains(e, "\n") && !contains(e, "> ")
+//@ regexp signRegexp: forall n string, e string, u int, z string, h int, m int {fmtd(u, 0), z + (fmtd(h, 2) + fmtd(m, 2)), emailOK(e), contains(n, "<")} :: s == n + (" <" + (e + ("> " + (fmtd(u, 0) + (" " + (z + (fmtd(h, 2) + fmtd(m, 2)))))))) && !contains(n, "<") && emailOK(e) && 1 <= u && (z == "+" || z == "-") && 0 <= h && h <= 99 && 0 <= m && m <= 99 ==> match(s)
 //@ regexp signRegexp: match(s) ==> contains(s, " <") && contains(afterName(s), "> ") && contains(afterEmail(s), " ") && len(splitTail(afterEmail(s), " ")) == 5
 
 // what cat-file -p shows of a tree (C05): one line per direct child, in order, with kind, id and the complete name,
@@ -296,6 +302,13 @@ package object
 //@   requires c.Object != nil
 //@   ensures [id-first] {C14} hasPrefix(str, "commit " + hex(c.Hash) + "\n")
 //@   ensures [message-last] {C14} len(str) >= len(c.Message) + 3 && bsub(str, len(str) - len(c.Message) - 3, len(str)) == "\n\t" + c.Message + "\n"
+
+// C12: a line of the form Sign.String writes (name, address, decimal instant, sign and HHMM) is read back as exactly
+// those: name, address, instant, and the offset +-(3600*HH + 60*MM)
+//@ func readSign
+//@   returns s, err
+//@   pure
+//@   ensures [roundtrip] {C12} forall n string, e string, u int, z string, h int, m int :: signString == n + (" <" + (e + ("> " + (fmtd(u, 0) + (" " + (z + (fmtd(h, 2) + fmtd(m, 2)))))))) && !contains(n, "<") && emailOK(e) && 1 <= u && u < 9223372036854775807 && (z == "+" || z == "-") && 0 <= h && h <= 99 && 0 <= m && m <= 99 ==> err == nil && s.Name == n && s.Email == e && time_unix(s.Timestamp) == u && time_off(s.Timestamp) == ite(z == "-", 0 - (3600 * h + 60 * m), 3600 * h + 60 * m)
 
 //@ func NewSign
 //@   returns s
